@@ -1,8 +1,10 @@
 """C04 - mapper dispatch and the stock traversals reach every node correctly.
 
 Two halves, each with the five stages of BUILDING.md:
-  dispatch:  C04_DGen (TLC: hierarchies x handler subsets x foreign objects; transcription of
-             Mapper.__call__ refines the meaning)  ->  drive_dispatch  ->  C04_DJudge
+  dispatch:  C04_DGen (TLC: hierarchies x handler subsets x foreign objects x what the handlers
+             do - return / raise; transcription of Mapper.__call__ refines the meaning, as handler
+             chosen and as run: one handler, its outcome unchanged; negative control eafp)
+             ->  drive_dispatch  ->  C04_DJudge
   walk:      C04_WGen (TLC: trees x traversal configurations, user node classes x handler
              subsets; stack acceptor == declarative walk contract on the canonical walk and its
              mutations), C04_WalkModel (TLC: full state graph of the acceptor on tiny trees +
@@ -22,8 +24,18 @@ DRV = "harness.c04drv"
 
 # ------------------------------------------------------------------ dispatch half
 def gen_dispatch(tier, out):
-    gen = kit.run_tlc("C04_DGen", f"C04_DGen_{tier}")
-    kit.require_clean(gen, "C04 dispatch generation / model check (DispatchImpl refines Dispatch)")
+    import concurrent.futures as cf
+    with cf.ThreadPoolExecutor(max_workers=2) as ex:
+        fg = ex.submit(kit.run_tlc, "C04_DGen", f"C04_DGen_{tier}")
+        # negative control: lookup and call under one "except AttributeError" (the handler's own
+        # exception taken for a failed lookup) - TLC must find OutcomeRefinesMeaning violated
+        fn = ex.submit(kit.run_tlc, "C04_DGen", "C04_DGen_neg_eafp", workers=1, heap="1g")
+        gen, neg = fg.result(), fn.result()
+    kit.require_clean(gen, "C04 dispatch generation / model check (DispatchImpl refines Dispatch, "
+                           "the run of the dispatcher ends as the one handler it names ends)")
+    if "OutcomeRefinesMeaning" not in neg.invariant_violated:
+        raise kit.MachineryError("C04_DGen negative control eafp: TLC did not find the swallowed exception")
+    out.extra["dispatch_negative_controls_caught"] = "1/1"
     out.add_tlc(gen)
     printed = gen.printed()
     runs = [p["runs"] for p in printed if "runs" in p]
@@ -36,16 +48,23 @@ def gen_dispatch(tier, out):
                 k["chars"] = k["name"]
                 k["name"] = "".join(k["name"])
     cases.sort(key=lambda c: json.dumps(c.get("chain", []), sort_keys=True))
-    kit.log(f"C04: TLC generated {len(cases)} dispatch cases ({gen.distinct} states, {gen.wall:.1f}s)")
+    nraise = sum(1 for c in cases if c.get("oc", {}).get("exc", "return") != "return")
+    out.extra["dispatch_cases_with_raising_handlers"] = nraise
+    kit.log(f"C04: TLC generated {len(cases)} dispatch cases, {nraise} with raising handlers "
+            f"({gen.distinct} states, {gen.wall:.1f}s); negative control eafp caught")
     return [{"id": i, "case": c} for i, c in enumerate(cases)], runs[0]
 
 
 def dispatch_sig(v):
     if v["v"] == "name":
         return {"half": "dispatch", "clause": "name", "deco": v["deco"], "own": v["own"]}
-    return {"half": "dispatch", "clause": v["v"], "mode": v["mode"], "cat": v["cat"],
-            "target": v["target"] if v["cat"] != "user" else
-            ("hook" if v["target"] == "unsupported" else "handler")}
+    sig = {"half": "dispatch", "clause": v["v"], "mode": v["mode"], "cat": v["cat"],
+           "target": v["target"] if v["cat"] != "user" else
+           ("hook" if v["target"] == "unsupported" else "handler")}
+    if v["v"] in ("extra-handler", "outcome"):
+        # what the handler in charge did: "return" or the exception class it raised
+        sig["does"] = v.get("want", "")
+    return sig
 
 
 def judge_dispatch(out, recs, wd, runs):
@@ -340,8 +359,11 @@ def run(tier, seed, out):
     out.rule = ("dispatch: TLC enumerates chains of 1-3 user classes below Expression/Variable/Sum/"
                 "CommonSubexpression/Call (decorated or not, own handler name or not, CamelCase pattern "
                 "names + every identifier over a 6-letter alphabet) x every subset of the handler names on "
-                "the resolution order, and 31 kinds of foreign object; 8 runs each (Mapper/CachedMapper x "
-                "__call__/rec_fallback x extra arguments x hook overridden).  walk: every node kind as root "
+                "the resolution order, and 31 kinds of foreign object; x what the handlers do (all return; "
+                "all / one handler on the resolution order / the overridden hook raise one of 8 exception "
+                "classes incl. AttributeError, KeyError, TypeError and user classes); 8 runs each "
+                "(Mapper/CachedMapper x __call__/rec_fallback x extra arguments x hook overridden), recording "
+                "every handler invoked and the value / exception object that came out.  walk: every node kind as root "
                 "(arities, omitted slice parts, kwargs) x one item (any inner kind or special leaf) in a "
                 "position, twin-subtree trees; x 9 instrumented stock traversals x extra-argument tuples x "
                 "visit-answer patterns x renamed leaves; user node classes rooted at Expression / "
